@@ -25,12 +25,15 @@ def main():
     budget = "40"
     keep = None
     also = None
+    confirm_only = False
     a = sys.argv[3:]
     while a:
         if a[0] == "--budget":
             budget = a[1]; a = a[2:]
         elif a[0] == "--keep":
             keep = a[1]; a = a[2:]
+        elif a[0] == "--confirm-only":  # stage 1 only; the result is cached in the seed directory (confirm.json, cur.diff)
+            confirm_only = True; a = a[1:]
         elif a[0] == "--also":  # a sibling property whose check is run too when the own check does not detect the change
             also = a[1]; a = a[2:]
         else:
@@ -46,6 +49,14 @@ def main():
     runpat = rm.group(1) if rm else "TestSeed"
     wt = "/tmp/wt_seedcheck_%d" % os.getpid()
     res = {"property": prop, "seed_dir": d, "package": pkg, "run": runpat}
+    cached = os.path.join(d, "confirm.json")
+    head_now = sh(["git", "-C", "/repo", "rev-parse", "HEAD"])[1].strip()
+    if os.path.exists(cached) and not confirm_only:
+        c = json.load(open(cached))
+        if c.get("confirmed") and c.get("repo_head") == head_now and os.path.exists(os.path.join(d, "cur.diff")):
+            res = c
+            cur = open(os.path.join(d, "cur.diff")).read()
+            return stage2(res, cur, d, prop, budget, keep, also, demo, pkg, runpat)
     try:
         rc, out = sh(["git", "-C", "/repo", "worktree", "add", "-q", "--detach", wt, "HEAD"])
         if rc != 0:
@@ -100,6 +111,15 @@ def main():
         sh(["git", "-C", "/repo", "worktree", "remove", "--force", wt])
     if not res.get("confirmed"):
         print(json.dumps(res, indent=1)); return 1
+    if confirm_only:
+        res["repo_head"] = head_now
+        open(os.path.join(d, "cur.diff"), "w").write(cur)
+        json.dump(res, open(cached, "w"), indent=1)
+        print(json.dumps(res, indent=1)); return 0
+    return stage2(res, cur, d, prop, budget, keep, also, demo, pkg, runpat)
+
+
+def stage2(res, cur, d, prop, budget, keep, also, demo, pkg, runpat):
     # run the check against /repo with the patch applied
     curpatch = "/tmp/seedcheck_cur_%d.diff" % os.getpid()
     open(curpatch, "w").write(cur)
